@@ -14,7 +14,8 @@ from ..common import tag
 LEVEL = "exploration"
 RULE = ("nesting shapes of Struct/Sequence/FocusedSeq/Union/LazyStruct/Array/GreedyRange/RepeatUntil(discard on/off) to depth 3 (quick) / 4 (thorough), "
         "<= 3 members per level, a Spy at every position and dependent members Bytes(path) for paths of length <= 3 over this.x, this._.x, this._._.x, "
-        "this._root.x, this._params.k, this._index, this._._index; each shape under parse, build and sizeof with keyword arguments. non-trivial = an "
+        "this._root.x, this._params.k, this._index, this._._index; data members that build derives by itself (Default given nothing), Unions whose first member "
+        "builds from nothing, plain nested structures inside LazyStruct (entered through sizeof while parsing); each shape under parse, build and sizeof with keyword arguments. non-trivial = an "
         "observation at depth >= 2 or involving _index/_root/_params below the first level; distinct by (shape, operation)")
 ASSUMPTIONS = ["_index left behind by a finished repeater for later siblings is unspecified and not compared", "sibling references inside LazyStruct while parsing are a documented restriction (not compared)",
                "Select is not in the property's list (its build re-enters build with a new top-level context)"]
